@@ -8,7 +8,7 @@ Verdict-level model of `(*Schema).visitJSON` (openapi3/schema.go), default setti
                           `arrOK`, `objOK`, `visitItems`, `visitProps`
 A verdict is `true` (nil error) or `false` (an error is returned). After the repairs recorded in
 known_findings.json no panic site is left in these functions for resolved schemas.
-Not modelled here: discriminator (see C12), the request/response readings (asreq/asrep), NaN/Inf inputs.
+Not modelled here: the request/response readings (asreq/asrep), NaN/Inf inputs.
 -/
 import KinModel.Schema.Schema
 namespace KinModel.Schema
@@ -86,7 +86,7 @@ def combine (env : Env) (kw : Kw) (a b c : List S) (shortcut : Bool) (v : J)
   if v.isNull && kw.permitsNull then true else
   if shortcut then !v.isNull else
   rNot &&
-  (c.isEmpty || rCount == 1) &&
+  (c.isEmpty || ((discCheck kw v).pass && rCount == 1)) &&
   (b.isEmpty || rAny) &&
   rAll &&
   (if v.isNull && (!c.isEmpty || !b.isEmpty || !a.isEmpty) then true   -- run = false
@@ -103,7 +103,7 @@ def visit (env : Env) : S → J → Bool
   | .mk kw a b c n i p ad, v =>
     combine env kw a b c (S.mk kw a b c n i p ad).shortcut v
       (match n with | none => true | some s => !visit env s v)
-      (countOK env c v) (visitAny env b v) (visitAll env a v)
+      (countOK env (discCheck kw v).ref c v) (visitAny env b v) (visitAll env a v)
       (match v with
        | .arr xs => (match i with | none => true | some s => visitItems env s xs)
        | .obj kvs => visitProps env p ad kw.addHas kvs
@@ -117,9 +117,10 @@ def visitAny (env : Env) : List S → J → Bool
   | [], _ => false
   | s :: ss, v => visit env s v || visitAny env ss v
 termination_by ss v => (sizeOf v, sizeOf ss)
-def countOK (env : Env) : List S → J → Nat
+/-- number of the selected oneOf items that accept -/
+def countOK (env : Env) (dr : String) : List S → J → Nat
   | [], _ => 0
-  | s :: ss, v => (if visit env s v then 1 else 0) + countOK env ss v
+  | s :: ss, v => (if selOK dr s && visit env s v then 1 else 0) + countOK env dr ss v
 termination_by ss v => (sizeOf v, sizeOf ss)
 def visitItems (env : Env) : S → List J → Bool
   | _, [] => true
